@@ -26,7 +26,7 @@ class _Pipeline:
         return self + other
 
     def __rsub__(self, other) -> Self:
-        return self - other
+        return -self + other
 
     def __rmul__(self, other) -> Self:
         return self * other
@@ -121,6 +121,9 @@ class ImageProvider(_Pipeline, Generic[_R]):
                 lambda scale: _ge(self(scale), other(scale))
             ).with_name(f"{self.__name__} >= {other.__name__}")
         return self.__class__(lambda scale: self(scale) >= other)
+
+    def __rtruediv__(self, other) -> ImageProvider:
+        return self.__class__(lambda scale: other / self(scale))
 
     def __neg__(self) -> ImageProvider:
         return self.__class__(lambda scale: -self(scale)).with_name(
@@ -286,6 +289,9 @@ class ImageConverter(_Pipeline):
                 lambda x, scale: _le(self(x, scale), other(scale))
             ).with_name(f"({self.__name__} <= {other.__name__})")
         return self.__class__(lambda x, scale: self(x, scale) <= other)
+
+    def __rtruediv__(self, other) -> ImageConverter:
+        return self.__class__(lambda x, scale: other / self(x, scale))
 
     def __neg__(self) -> ImageConverter:
         return self.__class__(lambda x, scale: -self(x, scale))
